@@ -1,6 +1,7 @@
 """C20 - migration to parameter mode carries every result over unchanged."""
 import contextlib
 import hashlib
+import os
 import io
 import json
 from pathlib import Path
@@ -19,6 +20,9 @@ def tree(root):
         return out
     for p in sorted(base.rglob('*'), key=lambda q: str(q.relative_to(base))):
         rel = str(p.relative_to(base))
+        if p.is_symlink() and not p.exists():
+            out.append([rel, 'dangling link to ' + os.readlink(p)])       # what a reader of the directory cannot read
+            continue
         out.append([rel, 'dir'] if p.is_dir() else [rel, hashlib.sha256(p.read_bytes()).hexdigest()[:16]])
     return out
 
@@ -312,6 +316,19 @@ class Scratchy(Task):           # a directory result whose directory held many s
         (d.dir / 'result.txt').write_text('done')
         return d
 
+class Linked(Task):             # a directory result that links a file of its input's result instead of copying it
+    class Meta:
+        input_tasks = [EmptyDict]
+    def run(self) -> DirData:
+        RUNS.append(self.slugname)
+        d = self.get_data_object()
+        src = self.input_tasks['empty_dict'].data_path
+        import os
+        (d.dir / 'input.json').symlink_to(os.path.relpath(src.resolve(), d.dir.resolve()))
+        (d.dir / 'inside.txt').write_text('x')
+        (d.dir / 'alias.txt').symlink_to('inside.txt')
+        return d
+
 class Resumable(Task):          # started, checkpoint written, not finished: its working directory is kept
     class Meta:
         parameters = [Parameter('finish')]
@@ -372,6 +389,9 @@ class SpecialSources(Suite):
                     (Path('data') / 'nothing' / 'notes.txt').write_text('kept by hand')
                     (Path('data') / 'empty_dict' / 'exp_tmp').mkdir()
                     (Path('data') / 'empty_dict' / 'exp_tmp' / 'scratch.bin').write_bytes(b'\x00\x01')
+                    # what an earlier failed attempt of a directory task left behind
+                    (Path('data') / 'empty_dir' / 'exp_error').mkdir()
+                    (Path('data') / 'empty_dir' / 'exp_error' / 'partial.txt').write_text('half')
                 src0 = tree('data')
                 steps = []
                 for dry in case['drys']:
